@@ -796,7 +796,7 @@ const WORDS: [&str; 10] = [
     "kilogarm", "metre5", "feets", "asdfqwer", "secnod", "speed", "foot", "energy", "gold", "USD",
 ];
 
-fn gen_query(rng: &mut Rng, i: usize, weights: &[u64; 14]) -> String {
+fn gen_query(rng: &mut Rng, i: usize, weights: &[u64; 15]) -> String {
     let n = uniq(rng, i);
     let m = 2 + rng.below(17);
     match rng.weighted(weights) {
@@ -939,6 +939,40 @@ fn gen_query(rng: &mut Rng, i: usize, weights: &[u64; 14]) -> String {
                 _ => format!("{} W s -> joule", k),
             }
         }
+        // date literals in every notation the bundled patterns know, well-formed
+        // and not: what one literal leaves behind in the parser (a remembered
+        // pattern, zone or "today") only shows in the next one
+        14 => (*rng.pick(&[
+            "#2020-03-01 14:00#",
+            "#2020-03-01T14:00#",
+            "#2020-03-01 14:00:30 +05:00#",
+            "#jan 5, 2020 14:00#",
+            "#jan 5, 2020 2:00 pm#",
+            "#jan 5, 2020#",
+            "#jan 5#",
+            "#13:45#",
+            "#12:00 pm#",
+            "#1:30:15 am#",
+            "#2020-03-01#",
+            "#--03-01#",
+            "#2020-060#",
+            "#1 BC#",
+            "#2020-02-30#",
+            "#feb 30#",
+            "#tomorrow#",
+            "#25:00#",
+            "#13:45 pm#",
+            "#2020-13-01 10:00#",
+            "#jan 32, 2020#",
+            "#2020-03-01 24:30#",
+            "#2020-03-01 14:00 +25:00#",
+            "#march#",
+            "#13:45# - #12:00 pm#",
+            "#2020-03-01 14:00# - #jan 5, 2020 14:00#",
+            "#2020-03-01 14:00# -> \"US/Pacific\"",
+            "#13:45# -> UTC",
+        ]))
+        .to_string(),
         // one shared identifier through different kinds of query
         _ => {
             let w = *rng.pick(&WORDS);
@@ -985,7 +1019,7 @@ impl Harness for C15 {
     }
 
     fn generate(&self, rng: &mut Rng, tier: Tier, _index: u64) -> Scenario {
-        let mut weights = [5u64, 5, 3, 2, 1, 1, 2, 2, 3, 1, 4, 4, 2, 3];
+        let mut weights = [5u64, 5, 3, 2, 1, 1, 2, 2, 3, 1, 4, 4, 2, 3, 2];
         for w in weights.iter_mut() {
             if rng.chance(1, 5) {
                 *w = 0;
@@ -1308,7 +1342,7 @@ pub fn timing() {
         println!("{:?}: Display = {:?}; serde_json = {}", q, text, if json.is_ok() { "ok" } else { "PANICS" });
     }
     let mut rng = Rng::new(1);
-    let w = [1u64; 14];
+    let w = [1u64; 15];
     let mut worst: Vec<(u128, String)> = Vec::new();
     for i in 0..3000 {
         let q = gen_query(&mut rng, i % 16, &w);
